@@ -221,7 +221,7 @@ def gen_case(ctx, g, focus=None):
             qa['kind'] = ('update', asg)
             qa['where'] = None
     hdrA = hdrB = None
-    if focus in (None, 'join') and join is not None and qa['kind'][0] == 'select' and r.random() < 0.35:
+    if focus in (None, 'join') and join is not None and qa.get('join') is join and qa['kind'][0] == 'select' and not qa.get('group') and r.random() < 0.35:
         # both tables with a HEADER; the join table with a header and NO records on purpose: rbql-js raises max_record_len to the number
         # of join column names after build(), so LEFT JOIN's all-null record has one field per join column (fix c71773a, D27; Join.widen).
         # TableIterator wants the header as wide as the first record of a non-empty table.
@@ -370,7 +370,7 @@ def js_leg(ctx, theorem, focus, n):
     for c, e in zip(cases, exp):
         if e is not None and (e['error'] or any(x[0] == 'W' for x in e['events'])):
             ctx.nontriv(('js', c['qjs'], json.dumps(c['A']), json.dumps(c['B'])))
-        if e is not None and c.get('hdrB') is not None and c['qa']['join']['kind'] == 'left' and any(x[0] == 'W' for x in e['events']):
+        if e is not None and c.get('hdrB') is not None and (c['qa'].get('join') or {}).get('kind') == 'left' and any(x[0] == 'W' for x in e['events']):
             ctx.stat('js_left_join_with_header_rows_written')
             if not c['B']:
                 ctx.stat('js_left_join_header_only_table_rows_written')
